@@ -41,7 +41,7 @@ def _top_func(tree, name):
 
 
 def copyback_attrs(fn):
-    """`for attr in [..]: setattr(self, attr, getattr(new_machine, attr))` -> the literal list."""
+    """`for attr in [..]: setattr(self, attr, getattr(new_machine, attr))` -> the literal list; also explicit `self.a = new_machine.a`."""
     found = []
     if fn is None:
         return found
@@ -62,6 +62,12 @@ def copyback_attrs(fn):
                         found.append(e.value)
                     else:
                         return []
+        # the same copy-back written as explicit assignments `self.a = new_machine.a` (one per attribute, any order)
+        if (isinstance(node, ast.Assign) and len(node.targets) == 1 and isinstance(node.targets[0], ast.Attribute)
+                and isinstance(node.targets[0].value, ast.Name) and node.targets[0].value.id == "self"
+                and isinstance(node.value, ast.Attribute) and isinstance(node.value.value, ast.Name)
+                and node.value.value.id not in ("self", "np", "da", "dask") and node.value.attr == node.targets[0].attr):
+            found.append(node.targets[0].attr)
     return found
 
 
